@@ -76,6 +76,9 @@ def build(case, seedkey="seed", force_real=False):
     dt = np.complex128 if cplx else None
     if case.get("single"):
         dt = np.complex64 if cplx else np.float32  # small integers: exactly representable
+    elif not cplx and np.all(arr == np.round(arr)):
+        # a real field whose storage type was asked for explicitly, in any documented spelling: the spectrum is complex
+        dt = [None, None, np.float64, "float64", float, np.int64, np.dtype("float64")][case["seed"] % 7]
     f = df.Field(mesh, nvdim=k, value=arr, dtype=dt, unit=case["unit"], **kw)
     return mesh, f, arr
 
